@@ -271,6 +271,11 @@ def gen_extension(rng, dump, n):
     inputs = [t for t in dump["types"] if t["kind"] == "input"]
     unions = [t for t in dump["types"] if t["kind"] == "union"]
     roots = [r["name"] for r in dump["roots"] if r]
+    scalars = [t for t in dump["types"] if t["kind"] == "scalar"]
+
+    def xd():
+        # a schema directive on the extension node itself (recorded in the `nodes` of the extended type)
+        return rng.choice(["", "", " @remove"])
     for _ in range(rng.randint(1, 3)):
         k = rng.random()
         if k < 0.25 and objs:
@@ -289,21 +294,24 @@ def gen_extension(rng, dump, n):
                 it = [x for x in ifaces if x["name"] == i][0]
                 # implement the interface: declare its fields too (same types, no arguments issues for validate)
                 impl = " implements " + i
-            parts.append("extend type %s%s { %sext_%d%s: %s%s }" % (t["name"], impl, desc, n, args, ftype, extra))
+            parts.append("extend type %s%s%s { %sext_%d%s: %s%s }" % (t["name"], impl, xd(), desc, n, args, ftype, extra))
         elif k < 0.33 and ifaces:
             t = rng.choice(ifaces)
-            parts.append("extend interface %s { ext_if_%d(a_b: [Int!] = [1, 2]): Int }" % (t["name"], n))
+            parts.append("extend interface %s%s { ext_if_%d(a_b: [Int!] = [1, 2]): Int }" % (t["name"], xd(), n))
         elif k < 0.43 and enums:
-            parts.append('extend enum %s { "added" EXT_%d, EXT_B_%d @deprecated(reason: "r") }' % (rng.choice(enums)["name"], n, n))
+            parts.append('extend enum %s%s { "added" EXT_%d, EXT_B_%d @deprecated(reason: "r") }'
+                         % (rng.choice(enums)["name"], xd(), n, n))
         elif k < 0.53 and inputs:
-            parts.append("extend input %s { ext_in_%d: Int = 5, ext_ref_%d: %s }" % (
-                rng.choice(inputs)["name"], n, n, rng.choice(["String", "[Float]"] + [e["name"] for e in enums])))
+            parts.append("extend input %s%s { ext_in_%d: Int = 5, ext_ref_%d: %s }" % (
+                rng.choice(inputs)["name"], xd(), n, n, rng.choice(["String", "[Float]"] + [e["name"] for e in enums])))
         elif k < 0.62 and unions and objs:
             u = rng.choice(unions)
             cands = [o["name"] for o in objs if o["name"] not in [m["name"] for m in u["members"]]
                      and o["name"] not in roots]
             if cands:
-                parts.append("extend union %s = %s" % (u["name"], rng.choice(cands)))
+                parts.append("extend union %s%s = %s" % (u["name"], xd(), rng.choice(cands)))
+        elif k < 0.66 and scalars:
+            parts.append("extend scalar %s @remove" % rng.choice(scalars)["name"])
         elif k < 0.78:
             parts.append('"new type" type New%d { id: ID, back: %s }\nextend type Query { new_%d(x_y: Int = 3): New%d }' % (
                 n, rng.choice(objs)["name"] if objs else "Int", n, n))
